@@ -119,10 +119,10 @@ def write_crate():
     os.makedirs(os.path.join(CRATE, "src", "bin"), exist_ok=True)
     open(os.path.join(CRATE, "Cargo.toml"), "w").write(
         '[package]\nname = "c18gen"\nversion = "0.0.0"\nedition = "2021"\npublish = false\n\n[workspace]\n\n'
-        '[dependencies]\nfpdec = { path = "/repo" }\n')
+        '[dependencies]\nfpdec = { path = "%s" }\n' % B.REPO)
     lock = os.path.join(CRATE, "Cargo.lock")
     if not os.path.exists(lock):
-        shutil.copy("/repo/Cargo.lock", lock)
+        shutil.copy(os.path.join(B.REPO, "Cargo.lock"), lock)
 
 
 ACCEPT_HEAD = "use fpdec::{Dec, Decimal};\nstatic T: &[(&str, Decimal)] = &[\n"
